@@ -301,6 +301,92 @@ def run(chk, replay=None):
                               {"suite": "console", "case": {"k": "record", "cases": [dict(c, keys=[k])]}, "model": mm, "impl": ra,
                                "correspondence": "Auth.Privilege.build_namespace_privilege"}, False)
 
+    # ---- 1b. the privilege WRITE path: UserManager add_user / update_user on the real actor vs the model ----
+    def rnd_param(first):
+        if rng.random() < (0.1 if first else 0.08):
+            return None
+        def ob():
+            return rng.choice([None, None, True, False, False])
+        def ol():
+            r = rng.random()
+            if r < 0.25:
+                return None
+            if r < 0.5:
+                return []
+            return rng.sample(pool, rng.randrange(1, 4))
+        return {"wl_all": ob(), "wl": ol(), "bl_all": rng.choice([None, None, None, False, True]), "bl": ol()}
+    users = [
+        # an admin revokes everything: the whitelist {ns-a, ns-b} is replaced by the EMPTY one
+        {"name": "u-revoke", "ops": [["add", {"wl_all": False, "wl": ["ns-a", "ns-b"], "bl_all": None, "bl": None}],
+                                     ["upd", {"wl_all": False, "wl": [], "bl_all": None, "bl": None}]]},
+        {"name": "u-unblack", "ops": [["add", {"wl_all": True, "wl": None, "bl_all": False, "bl": ["ns-b"]}],
+                                      ["upd", {"wl_all": None, "wl": None, "bl_all": None, "bl": []}],
+                                      ["upd", None]]},
+        {"name": "u-missing", "ops": [["upd", {"wl_all": False, "wl": ["ns-a"], "bl_all": None, "bl": None}]]},
+    ]
+    for i in range(25 if tier == "quick" else 250):
+        ops = [["add", rnd_param(True)]]
+        for _ in range(rng.randrange(1, 6)):
+            ops.append(["upd", rnd_param(False)])
+        users.append({"name": "u-%d" % i, "ops": ops})
+    ucase = {"k": "userpriv", "users": users, "keys": keys, "env": {"RNACOS_ENABLE_NO_AUTH_CONSOLE": "false"}}
+    ures = None
+    for attempt in (1, 2):
+        ures = lib.harness_run("console", [ucase], timeout=900)[0]
+        if ures.get("r") == "ok":
+            break
+    if ures.get("r") != "ok":
+        chk.violation("console/userpriv harness case failed: %s" % json.dumps(ures)[:300],
+                      {"suite": "console", "case": ucase, "broken": "harness", "result": str(ures)[:2000]}, False)
+    else:
+        def pcoq(pm):
+            if pm is None:
+                return "None"
+            def ob(b):
+                return "None" if b is None else "(Some %s)" % str(b).lower()
+            def ol(l):
+                return "None" if l is None else "(Some %s)" % cps_list(l)
+            return "(Some (mkPp %s %s %s %s))" % (ob(pm["wl_all"]), ol(pm["wl"]), ob(pm["bl_all"]), ol(pm["bl"]))
+        uexprs = ["urun None [%s] %s" % ("; ".join(("UAdd %s" if o[0] == "add" else "UUpd %s") % pcoq(o[1]) for o in u["ops"]), cps_list(keys))
+                  for u in users]
+        umodel = lib.coq_eval_sharded("c18u", HEADER, uexprs, per=15)
+        n_upd = 0
+        for u, a, m in zip(users, ures["out"], umodel):
+            for j, (op, ra, rm) in enumerate(zip(u["ops"], a, m)):
+                n_eval += 1
+                n_upd += 1
+                mm = None if rm == "None" else [int(rm[1][0]), [[x == "true" for x in row] for row in rm[1][1]]]
+                one = {"k": "userpriv", "users": [{"name": u["name"], "ops": u["ops"][:j + 1]}], "keys": keys, "env": ucase["env"]}
+                if ra != mm:
+                    mism += 1
+                    chk.violation("model != implementation (user privilege write path) user=%s op #%d %s: model=%s impl=%s"
+                                  % (u["name"], j, json.dumps(op), json.dumps(mm)[:200], json.dumps(ra)[:200]),
+                                  {"suite": "console", "case": one, "model": mm, "impl": ra, "correspondence": "Auth.Privilege.update_user_priv"}, False)
+                # property oracle on the real actor: what the admin set is what the next login gets
+                pm = op[1]
+                if ra is None or pm is None or not isinstance(ra, list):
+                    continue
+                for k, row in zip(keys, ra[1]):
+                    if pm["wl"] is not None and "public" not in pm["wl"] and pm["wl_all"] is False and k not in pm["wl"] \
+                            and not (k == "public" and "" in pm["wl"]) and row[2]:
+                        chk.classify("privilege-update", "after %s set user %s's whitelist to %s (whitelistIsAll=false) namespace %r is still permitted"
+                                     % (op[0], u["name"], pm["wl"], k), {"suite": "console", "case": one})
+                    # (a literal "public" in a stored list is never matched: the default namespace is keyed ""; same
+                    #  exclusion as in part 1 — the console stores the default namespace as "")
+                    if pm["bl"] is not None and k in pm["bl"] and k != "public" and row[2]:
+                        chk.classify("privilege-update", "after %s put namespace %r on user %s's blacklist it is still permitted"
+                                     % (op[0], k, u["name"]), {"suite": "console", "case": one})
+                    if pm["wl"] is not None and row[0] != (k in pm["wl"]):
+                        chk.classify("privilege-update", "after %s gave user %s the whitelist %s the stored whitelist %s %r"
+                                     % (op[0], u["name"], pm["wl"], "contains" if row[0] else "lacks", k), {"suite": "console", "case": one})
+                    if pm["bl"] is not None and row[1] != (k in pm["bl"]):
+                        chk.classify("privilege-update", "after %s gave user %s the blacklist %s the stored blacklist %s %r"
+                                     % (op[0], u["name"], pm["bl"], "contains" if row[1] else "lacks", k), {"suite": "console", "case": one})
+                    if row[2]:
+                        nontrivial.add(("upd", u["name"], k))
+        chk.cov["user_privilege_ops"] = n_upd
+        chk.cov["user_privilege_empty_list_updates"] = sum(1 for u in users for o in u["ops"] if o[1] and (o[1]["wl"] == [] or o[1]["bl"] == []))
+
     if rows is None:
         chk.cov["discharged"] = 0
         chk.cov["evaluations"] = n_eval
